@@ -10,12 +10,13 @@ import config as CFG
 ap = argparse.ArgumentParser()
 ap.add_argument("--workers", type=int, default=4)
 ap.add_argument("--repo", default=os.environ.get("VP_RUN_REPO", "/repo"))
+ap.add_argument("--only", default="", help="run only the patches whose file name starts with this prefix and merge them into the existing BENIGN.json")
 a = ap.parse_args()
 BY_FILE = [("src/parse/", ["C01", "C02", "C03", "C05", "C07", "C12"]), ("src/print/", ["C04", "C08", "C13", "C09"]),
            ("src/object/", ["C06", "C02", "C09", "C10", "C11", "C14", "C04"]), ("src/lib.rs", ["C11", "C20", "C04", "C08", "C13", "C14"]),
            ("src/kind.rs", ["C20"]), ("src/code_map.rs", ["C11", "C05"]), ("src/array.rs", ["C11"]), ("src/try_from.rs", ["C11"]), ("src/unordered.rs", ["C15"])]
 bdir = os.path.join(HERE, "seeded", "benign")
-patches = sorted(f for f in os.listdir(bdir) if f.endswith(".diff"))
+patches = sorted(f for f in os.listdir(bdir) if f.endswith(".diff") and f.startswith(a.only))
 def props_of(patch):
     txt = open(os.path.join(bdir, patch)).read()
     files = re.findall(r"^\+\+\+ b/(\S+)", txt, re.M)
@@ -41,6 +42,8 @@ def work(patch):
     shutil.rmtree(scratch, ignore_errors=True)
     return patch, out
 res = {}
+if a.only and os.path.exists(os.path.join(bdir, "BENIGN.json")):
+    res = json.load(open(os.path.join(bdir, "BENIGN.json")))["results"]
 with concurrent.futures.ThreadPoolExecutor(max_workers=a.workers) as ex:
     for patch, out in ex.map(work, patches):
         res[patch] = out
